@@ -290,3 +290,62 @@ Inductive c16_hyfun := C16Plus | C16Minus | C16Max | C16Min | C16EqualTo.
 Definition c16_hy_fun (m1 m2 : c16_mode) (o : c16_hyfun) (a b : Z) : Z :=
   match o with C16Plus => a + b | C16Minus => a - b | C16Max => Z.max a b | C16Min => Z.min a b
              | C16EqualTo => if a =? b then 1 else 0 end.
+
+(* ================================================================== additions of the API-coverage audit *)
+(* a derived class of the new IteratorFacade WITHOUT baseIterator() that implements *, +=, - and == itself:
+   ++ and -- are the facade's fallbacks `derived() += 1` and `derived() -= 1` (the latter being `derived() += (-1)`) *)
+Definition c16_nf_ops_manual {B V W} (bs : c16_base B V) (star : B -> W) : c16_ops B W :=
+  let o := c16_nf_ops bs star in {|
+    c16_o_eq := c16_o_eq o; c16_o_ne := c16_o_ne o; c16_o_lt := c16_o_lt o; c16_o_le := c16_o_le o;
+    c16_o_gt := c16_o_gt o; c16_o_ge := c16_o_ge o; c16_o_diff := c16_o_diff o;
+    c16_o_inc := c16_nf_inc_by_advance bs; c16_o_dec := c16_nf_dec_by_advance bs;
+    c16_o_plus := c16_o_plus o; c16_o_minus := c16_o_minus o; c16_o_pluseq := c16_o_pluseq o; c16_o_minuseq := c16_o_minuseq o;
+    c16_o_index := c16_o_index o; c16_o_star := c16_o_star o |}.
+
+(* ContainerWrapperIterator (diagonalmatrix.hh 996-1082, on the BidirectionalIteratorFacade): `size_t position_` set from an
+   `int`, advance(int), distanceTo = other.position_ - position_ in size_t returned as ptrdiff_t *)
+Definition c16_cw_prims (xs : list Z) : c16_prims Z (option Z) := {|
+  c16_p_inc := fun p => c16_wrap 64 (p + 1);
+  c16_p_dec := fun p => c16_wrap 64 (p - 1);
+  c16_p_adv := fun n p => c16_wrap 64 (p + c16_sext 32 n);
+  c16_p_dist := fun a b => c16_sext 64 (c16_wrap 64 (b - a));
+  c16_p_eq := fun a b => a =? b;
+  c16_p_deref := fun p => c16_at xs p;
+  c16_p_elt := fun p i => c16_at xs (c16_wrap 64 (p + c16_sext 32 i)) |}.
+
+(* copying, assigning and mutable -> const conversion copy the members *)
+Definition c16_copy {P} (p : P) : P := p.
+
+(* iterators handed out by DenseVector / DenseMatrix: begin, end, beforeEnd, beforeBegin, find (densevector.hh 347-413) *)
+Definition c16_dense_begin : Z := 0.
+Definition c16_dense_end (n : Z) : Z := c16_wrap 64 n.
+Definition c16_dense_before_end (n : Z) : Z := c16_wrap 64 (n - 1).
+Definition c16_dense_before_begin : Z := c16_wrap 64 (-1).
+Definition c16_dense_find (n i : Z) : Z := Z.min (c16_wrap 64 i) n.         (* Iterator(this, std::min(i, size())) *)
+
+(* rangeutilities.hh 36-111: max_value / min_value (std::max_element / min_element), any_true / all_true (loops as written) *)
+Definition c16_max_value (x : Z) (xs : list Z) : Z := fold_left (fun m e => if m <? e then e else m) xs x.
+Definition c16_min_value (x : Z) (xs : list Z) : Z := fold_left (fun m e => if e <? m then e else m) xs x.
+Definition c16_any_true (xs : list bool) : bool := fold_left (fun b e => b || e) xs false.
+Definition c16_all_true (xs : list bool) : bool := fold_left (fun b e => b && e) xs true.
+
+(* integersequence.hh: everything is a list operation; `sorted` (a constexpr quicksort on std::array) is modelled by its
+   result, which for integers is determined: the sorted permutation (insertion sort w.r.t. the comparison) *)
+Definition c16_iseq_get (s : list Z) (i : Z) : option Z := c16_at s i.
+Definition c16_iseq_back (s : list Z) : option Z := c16_at s (Z.of_nat (length s) - 1).
+Definition c16_iseq_contains (s : list Z) (v : Z) : bool := fold_right (fun i acc => (i =? v) || acc) false s.
+Fixpoint c16_iseq_difference (s j : list Z) : list Z :=
+  match s with [] => [] | i0 :: r => if negb (c16_iseq_contains j i0) then i0 :: c16_iseq_difference r j else c16_iseq_difference r j end.
+Definition c16_iseq_difference_dec (s j : list Z) : list Z :=     (* `if constexpr (iSeq.size() == 0 || jSeq.size() == 0) return iSeq` *)
+  match s, j with [], _ => s | _, [] => s | _, _ => c16_iseq_difference s j end.
+Fixpoint c16_iseq_equal (a b : list Z) : bool :=
+  match a, b with [], [] => true | x :: a', y :: b' => (x =? y) && c16_iseq_equal a' b' | _, _ => false end.
+Fixpoint c16_iseq_filter (f : Z -> bool) (s : list Z) : list Z :=
+  match s with [] => [] | j0 :: r => if f j0 then j0 :: c16_iseq_filter f r else c16_iseq_filter f r end.
+Fixpoint c16_insert (lt : Z -> Z -> bool) (x : Z) (l : list Z) : list Z :=
+  match l with [] => [x] | y :: r => if lt y x then y :: c16_insert lt x r else x :: l end.
+Definition c16_iseq_sorted (lt : Z -> Z -> bool) (s : list Z) : list Z := fold_right (c16_insert lt) [] s.
+
+(* Hybrid::max / min with any number of arguments (std::max / std::min over an initializer list) *)
+Definition c16_hy_maxn (x : Z) (xs : list Z) : Z := c16_max_value x xs.
+Definition c16_hy_minn (x : Z) (xs : list Z) : Z := c16_min_value x xs.
